@@ -15,7 +15,20 @@ class CaseTimeout(Exception):
     pass
 
 
+_state = {"fired": 0, "spec": None}
+
+
 def _alarm(signum, frame):
+    # The first alarm raises into the running case.  Code under test may swallow that (a Deferred callback chain
+    # does); if the case is still running at the second alarm it is hung inside one reactor event: give up on the
+    # shard at once and say which case it was, instead of waiting for the parent's watchdog.
+    _state["fired"] += 1
+    if _state["fired"] >= 2:
+        import os
+        sys.stderr.write("HUNG-CASE %s\n" % json.dumps(_state["spec"], default=str)[:600])
+        sys.stderr.flush()
+        os._exit(97)
+    signal.alarm(20)
     raise CaseTimeout()
 
 
@@ -34,6 +47,8 @@ def run_shard(prop, specs, case_timeout, keep_samples=2, debug=False):
     for n, spec in enumerate(specs):
         random.seed(spec.get("seed", 0))
         t0 = time.time()
+        _state["fired"] = 0
+        _state["spec"] = spec
         signal.alarm(case_timeout)
         try:
             res = mod.run(spec) if not debug else mod.run(dict(spec, debug=True))
